@@ -391,6 +391,15 @@ func main() {
 
 			// sync import redirect
 			for _, imp := range f.Imports {
+				if imp.Path.Value == `"sync/atomic"` && !strings.HasSuffix(rel, "peg.go") {
+					imp.Path.Value = strconv.Quote(mod + "/verifrt/vatomic")
+					if imp.Name == nil {
+						imp.Name = ast.NewIdent("atomic")
+					}
+					file, line := pos(imp)
+					sites = append(sites, site{"sync-import", file, line, "sync/atomic -> verifrt/vatomic"})
+					changed = true
+				}
 				if imp.Path.Value == `"sync"` && !strings.HasSuffix(rel, "peg.go") {
 					imp.Path.Value = strconv.Quote(mod + "/verifrt/vsync")
 					if imp.Name == nil {
